@@ -9,12 +9,16 @@
   size land in adjacent cells; under the bookkeeping invariant every registered atom in an
   adjacent cell is returned; and the invariant holds after EVERY sequence of place / remove /
   move operations that obey the protocol (coordinates change only while unregistered).
+  Exactness (the other half of "equal to a brute-force search"): after every such history the
+  query returns ONLY registered atoms of adjacent cells, never the querying atom, and returns no
+  atom twice (`near_exact`, `near_nodup`).
   The end-to-end claim additionally needs the callers to obey that protocol. They do not at the
   call sites listed in known_findings.txt (genuine defects found by the monitor on real runs):
   that part is `…_partial` by nature and monitored, not proved.
 -/
 import P2P.Model.Cells
 import P2P.Proofs.CellsLemmas
+import P2P.Proofs.CellsExactLemmas
 
 namespace P2P.Props.C14
 open P2P.Cells P2P.Proofs.Cells
@@ -52,6 +56,70 @@ theorem inv_after_any_history (s : Int) (hs : 0 < s) (ops : List Op) :
 /-- the query never returns the querying atom itself -/
 theorem near_excludes_self (st : State) (a : Id) : a ∉ nearCells st a :=
   near_excludes_self_core st a
+
+/-- **Exactness.** After every protocol-obeying history the cell lists hold exactly the
+registered atoms (`Exact`), so for a registered querying atom the query returns `b` if and only if
+`b` is another registered atom whose cell is adjacent to the querying atom's cell: nothing is
+lost (completeness) and nothing stale, removed or foreign is returned (soundness). -/
+theorem near_exact (s : Int) (hs : 0 < s) (ops : List Op) (a b : Id) :
+    let st := ops.foldl applyOp (init s)
+    b ∈ nearCells st a ↔
+      (b ≠ a ∧ ∃ ka kb, cellOf st a = some ka ∧ cellOf st b = some kb ∧ Adjacent s ka kb) := by
+  intro st
+  have hI : Inv st := inv_after_any_history_core s hs ops
+  obtain ⟨hE, hsz⟩ := exact_after_any_history_core s ops
+  constructor
+  · intro hb
+    have h := near_sound_core st hE a b hb
+    rw [hsz] at h
+    exact h
+  · rintro ⟨hne, ka, kb, ha, hb, hadj⟩
+    exact near_complete_static_core st hI a b ka kb (Ne.symm hne) ha hb (by rw [hsz]; exact hadj)
+
+/-- **No neighbour is returned twice**, after every protocol-obeying history: the result is a
+set, as a brute-force search over the structure's atoms gives. -/
+theorem near_nodup (s : Int) (hs : 0 < s) (ops : List Op) (a : Id) :
+    (nearCells (ops.foldl applyOp (init s)) a).Nodup := by
+  have hI : Inv (ops.foldl applyOp (init s)) := inv_after_any_history_core s hs ops
+  obtain ⟨hE, hsz⟩ := exact_after_any_history_core s ops
+  exact near_nodup_core _ (by rw [hsz]; exact hs) hI hE a
+
+/-- what `add_cell` sees of a point with rational coordinates -/
+def tposOf (p : ℚ × ℚ × ℚ) : TPos :=
+  { nx := decide (p.1 < 0), tx := truncQ p.1, ny := decide (p.2.1 < 0), ty := truncQ p.2.1,
+    nz := decide (p.2.2 < 0), tz := truncQ p.2.2 }
+
+/-- **The end-to-end statement on the model**: after every protocol-obeying history, two
+registered atoms whose coordinates differ by less than the cell size along every axis (in
+particular: two atoms closer than the cell size) find each other — for any rational coordinates,
+negative, zero, on cell boundaries or far from the origin. Together with `near_exact` and
+`near_nodup`: filtering the query's result by distance gives the brute-force result. -/
+theorem near_in_range (s : Int) (hs : 0 < s) (ops : List Op) (a b : Id) (pa pb : ℚ × ℚ × ℚ)
+    (hab : a ≠ b) :
+    let st := ops.foldl applyOp (init s)
+    (cellOf st a).isSome → (cellOf st b).isSome →
+    posOf st a = tposOf pa → posOf st b = tposOf pb →
+    |pa.1 - pb.1| < s → |pa.2.1 - pb.2.1| < s → |pa.2.2 - pb.2.2| < s →
+    b ∈ nearCells st a := by
+  intro st ha hb hpa hpb hx hy hz
+  have hI : Inv st := inv_after_any_history_core s hs ops
+  obtain ⟨_, hsz⟩ := exact_after_any_history_core s ops
+  obtain ⟨ka, hka⟩ := Option.isSome_iff_exists.mp ha
+  obtain ⟨kb, hkb⟩ := Option.isSome_iff_exists.mp hb
+  have h1 := (hI.2 a ka hka).1
+  have h2 := (hI.2 b kb hkb).1
+  refine near_complete_static_core st hI a b ka kb hab hka hkb ?_
+  rw [hsz] at h1 h2 ⊢
+  rw [h1, h2, hpa, hpb]
+  exact ⟨close_implies_adjacent_core s hs _ _ hx, close_implies_adjacent_core s hs _ _ hy,
+    close_implies_adjacent_core s hs _ _ hz⟩
+
+/-- non-vacuity: a history with two atoms in adjacent cells, one move and one removal; the moved
+atom is found at its new place, the removed one is not returned -/
+example :
+    let p (x : Int) : TPos := { nx := decide (x < 0), tx := x, ny := false, ty := 0, nz := false, tz := 0 }
+    let st := [Op.place 1 (p 1), Op.place 2 (p 3), Op.place 3 (p (-1)), Op.move 2 (p 9), Op.remove 3, Op.move 2 (p 2)].foldl applyOp (init 2)
+    nearCells st 1 = [2] := by decide
 
 /-- the sizes the code uses are 2 (debumping) and 5 (hydrogen-bond optimisation): both positive -/
 example : (0 : Int) < 2 ∧ (0 : Int) < 5 := by decide
